@@ -5,7 +5,8 @@ demonstration passes on the clean tree and fails with the change, and the reposi
 import json, os, shutil, sys, subprocess
 
 VERIF = os.path.dirname(os.path.dirname(os.path.abspath(__file__)))
-SRC = "/tmp/seeded_out"
+SRC = os.environ.get("KEEP_SRC", "/tmp/seeded_out")
+APPEND = os.environ.get("KEEP_APPEND") == "1"   # keep the rows of MATRIX.md that the given result files do not mention
 OUT_OF_SCOPE = {
     "C07_5": "breaks MultivariateModel.conditional_sample for models with >= 3 variables; C07 is about draw_sample, C16 about 2-D transformed models",
 }
@@ -56,6 +57,13 @@ for name in sorted(res):
     json.dump(meta, open(os.path.join(d, "meta.json"), "w"), indent=1)
     rows.append((name, verdict, "; ".join(by[:3]), meta["summary"][:110]))
 
+if APPEND:
+    have = {r[0] for r in rows}
+    for l in open(os.path.join(VERIF, "seeded", "MATRIX.md")):
+        c = [x.strip() for x in l.strip().strip("|").split(" | ")]
+        if l.startswith("| C") and len(c) >= 4 and c[0] not in have:
+            rows.append((c[0], c[1], c[2], " | ".join(c[3:])))
+    rows.sort(key=lambda r: r[0])
 with open(os.path.join(VERIF, "seeded", "MATRIX.md"), "w") as f:
     f.write("# Seeded property-breaking changes (all keep the repository's test-suite green)\n\n"
             f"Evaluated with `tools/eval_seeded.py` against /repo {head}: scratch worktree, patch applied, demo fails there and passes on the clean tree,\n"
